@@ -64,7 +64,7 @@ def _strip_dataflow(f, attr):
 
 
 def _edges(ctx, rep):
-    tm = ctx.mod("ctparse.types")
+    tm = ctx.imod("ctparse.types")
     init = tm.func("RegexMatch.__init__")
     trims_end = _strip_dataflow(init, "mend")
     trims_start = _strip_dataflow(init, "mstart")
@@ -130,7 +130,7 @@ def _raw_extent_readers(ctx, rep):
 
 
 def _length_term(ctx, rep):
-    nm = ctx.mod("ctparse.nb_scorer")
+    nm = ctx.imod("ctparse.nb_scorer")
     cls = [c for c in nm.classes.values() if any(norm(b) == "Scorer" for b in c.bases)]
     if not cls:
         raise AnalysisError("anchor vanished: naive-Bayes scorer class")
